@@ -26,22 +26,22 @@ pub fn batches(prop: &str, tier: &str) -> Vec<Batch> {
     let q = tier == "quick";
     match prop {
         "C19" => vec![
-            Batch { label: "faultfree", engine: "io-sim", params: json!({"mode":"faultfree"}), runs: if q { 4_000 } else { 200_000 } },
-            Batch { label: "faulty", engine: "io-sim", params: json!({"mode":"faulty"}), runs: if q { 20_000 } else { 2_000_000 } },
+            Batch { label: "faultfree", engine: "io-sim", params: json!({"mode":"faultfree"}), runs: if q { 4_000 } else { 100_000 } },
+            Batch { label: "faulty", engine: "io-sim", params: json!({"mode":"faulty"}), runs: if q { 20_000 } else { 1_000_000 } },
             Batch { label: "enum", engine: "io-sim", params: json!({"mode":"enum"}), runs: if q { 600 } else { 30_000 } },
-            Batch { label: "server", engine: "lsp-sim", params: json!({"mode":"stats"}), runs: if q { 400 } else { 40_000 } },
+            Batch { label: "server", engine: "lsp-sim", params: json!({"mode":"stats"}), runs: if q { 400 } else { 20_000 } },
         ],
         "C07" => vec![
-            Batch { label: "dict-sequential", engine: "lsp-sim", params: json!({"mode":"sequential","focus":"dict"}), runs: if q { 300 } else { 30_000 } },
-            Batch { label: "dict-concurrent", engine: "lsp-sim", params: json!({"mode":"dict"}), runs: if q { 600 } else { 60_000 } },
-            Batch { label: "crash-random", engine: "lsp-sim", params: json!({"mode":"crash"}), runs: if q { 400 } else { 100_000 } },
-            Batch { label: "crash-enum-base", engine: "lsp-sim", params: json!({"mode":"sequential","focus":"dict","enumerate_crash_points":true}), runs: if q { 60 } else { 3_000 } },
+            Batch { label: "dict-sequential", engine: "lsp-sim", params: json!({"mode":"sequential","focus":"dict"}), runs: if q { 300 } else { 10_000 } },
+            Batch { label: "dict-concurrent", engine: "lsp-sim", params: json!({"mode":"dict"}), runs: if q { 600 } else { 20_000 } },
+            Batch { label: "crash-random", engine: "lsp-sim", params: json!({"mode":"crash"}), runs: if q { 400 } else { 30_000 } },
+            Batch { label: "crash-enum-base", engine: "lsp-sim", params: json!({"mode":"sequential","focus":"dict","enumerate_crash_points":true}), runs: if q { 60 } else { 1_500 } },
         ],
         "C08" => vec![
-            Batch { label: "position", engine: "lsp-sim", params: json!({"mode":"sequential","focus":"position"}), runs: if q { 300 } else { 60_000 } },
+            Batch { label: "position", engine: "lsp-sim", params: json!({"mode":"sequential","focus":"position"}), runs: if q { 300 } else { 20_000 } },
         ],
         "C05" => {
-            let mut v = vec![Batch { label: "history", engine: "cache-sim", params: json!({"mode":"history","universes":3}), runs: if q { 700 } else { 70_000 } }];
+            let mut v = vec![Batch { label: "history", engine: "cache-sim", params: json!({"mode":"history","universes":3}), runs: if q { 500 } else { 20_000 } }];
             if !q {
                 v.push(Batch { label: "eviction", engine: "cache-sim", params: json!({"mode":"eviction","clauses":10_500,"universes":0}), runs: 64 });
             } else {
@@ -50,22 +50,22 @@ pub fn batches(prop: &str, tier: &str) -> Vec<Batch> {
             v
         }
         "C14" => vec![
-            Batch { label: "core", engine: "api-sim", params: json!({"target":"core"}), runs: if q { 1_500 } else { 150_000 } },
-            Batch { label: "wasm", engine: "api-sim", params: json!({"target":"wasm"}), runs: if q { 1_000 } else { 100_000 } },
-            Batch { label: "server", engine: "lsp-sim", params: json!({"mode":"sequential","focus":"ignore"}), runs: if q { 400 } else { 40_000 } },
+            Batch { label: "core", engine: "api-sim", params: json!({"target":"core"}), runs: if q { 1_000 } else { 60_000 } },
+            Batch { label: "wasm", engine: "api-sim", params: json!({"target":"wasm"}), runs: if q { 700 } else { 40_000 } },
+            Batch { label: "server", engine: "lsp-sim", params: json!({"mode":"sequential","focus":"ignore"}), runs: if q { 400 } else { 15_000 } },
         ],
         "C16" => vec![
-            Batch { label: "wasm", engine: "api-sim", params: json!({"target":"wasm"}), runs: if q { 1_500 } else { 150_000 } },
+            Batch { label: "wasm", engine: "api-sim", params: json!({"target":"wasm"}), runs: if q { 1_200 } else { 60_000 } },
         ],
         "C10" => vec![
-            Batch { label: "paths-sequential", engine: "lsp-sim", params: json!({"mode":"sequential","focus":"paths"}), runs: if q { 300 } else { 30_000 } },
-            Batch { label: "paths", engine: "lsp-sim", params: json!({"mode":"paths"}), runs: if q { 900 } else { 120_000 } },
-            Batch { label: "js-api", engine: "api-sim", params: json!({"target":"wasm"}), runs: if q { 150 } else { 15_000 } },
-            Batch { label: "library", engine: "cache-sim", params: json!({"mode":"history"}), runs: if q { 100 } else { 10_000 } },
+            Batch { label: "paths-sequential", engine: "lsp-sim", params: json!({"mode":"sequential","focus":"paths"}), runs: if q { 300 } else { 10_000 } },
+            Batch { label: "paths", engine: "lsp-sim", params: json!({"mode":"paths"}), runs: if q { 900 } else { 40_000 } },
+            Batch { label: "js-api", engine: "api-sim", params: json!({"target":"wasm"}), runs: if q { 150 } else { 5_000 } },
+            Batch { label: "library", engine: "cache-sim", params: json!({"mode":"history"}), runs: if q { 100 } else { 3_000 } },
         ],
         "C09" => vec![
-            Batch { label: "sequential", engine: "lsp-sim", params: json!({"mode":"sequential"}), runs: if q { 400 } else { 40_000 } },
-            Batch { label: "concurrent", engine: "lsp-sim", params: json!({"mode":"concurrent"}), runs: if q { 2_000 } else { 300_000 } },
+            Batch { label: "sequential", engine: "lsp-sim", params: json!({"mode":"sequential"}), runs: if q { 400 } else { 10_000 } },
+            Batch { label: "concurrent", engine: "lsp-sim", params: json!({"mode":"concurrent"}), runs: if q { 2_000 } else { 60_000 } },
         ],
         _ => vec![],
     }
